@@ -42,6 +42,7 @@ Theorem start_stage_writes s id i k st :
       rr_phase (evaluate_readiness (rstage_of st) (upstream s st) (s_bypass st)) = P_READY)).
 Proof.
   intros Hs j st'. unfold handle_start_stage. rewrite Hs.
+  destruct (parent_not_started s st). { simpl. intros []. }
   set (r := evaluate_readiness _ _ _).
   assert (forall j st',
             In (j, st') (puts (h_commits (if start_stage_late (s_status st) then ok []
